@@ -62,6 +62,14 @@ def regenerate_guards(pid):
         nold = nt.read_text() if nt.exists() else ""
         if ntext != nold: nt.write_text(ntext)
         info["numpy_code"] = {"module": "LK.Gen.NpC08", "obligations": "LK/Proofs/NpC08.lean", "function": "basic/bias.py:BiasModel.learn", "changed_since_last_run": ntext != nold}
+        # …and BiasModel.compute_for_items, with its branches (translate/py2lean_imp.py)
+        import py2lean_imp
+        it = LEAN_DIR / "LK" / "Generated" / "ImpC08.lean"
+        try: itext = py2lean_imp.translate(os.path.dirname(lenskit.__file__))
+        except py2lean_imp.Unsupported as e: return "untranslatable", f"BiasModel.compute_for_items: {e}", info
+        iold = it.read_text() if it.exists() else ""
+        if itext != iold: it.write_text(itext)
+        info["score_assembly"] = {"module": "LK.Gen.ImpC08", "obligations": "LK/Proofs/ImpC08.lean", "function": "basic/bias.py:BiasModel.compute_for_items", "changed_since_last_run": itext != iold}
     if pid == "C06":
         # array_dcg / fixed_dcg, statement by statement (translate/py2lean_np.py)
         import py2lean_np
@@ -142,7 +150,7 @@ def main():
         if status in ("untranslatable", "obligation-broken"):
             sys.exit(search_chunking(a.pid, f"{status}: {msg}"))
         if status == "build-error":
-            if ginfo is not None and any(f"{k}{a.pid}" in msg for k in ("Guards", "Wiring", "Scatter", "Np")):
+            if ginfo is not None and any(f"{k}{a.pid}" in msg for k in ("Guards", "Wiring", "Scatter", "Np", "Imp")):
                 sys.exit(obligation_broken(a.pid, "obligation-broken: " + msg.replace("\n", " | ")[:900], mod, a.tier, seed, a.replay, ginfo))
             print(f"machinery error: lake build failed\n{msg}", file=sys.stderr); sys.exit(2)
     else:
@@ -150,7 +158,7 @@ def main():
         r = subprocess.run(["lake", "build", f"LK.Props.{a.pid}", "lkdriver"], cwd=LEAN_DIR, capture_output=True, text=True, timeout=1800)
         if r.returncode != 0:
             bad = [l for l in (r.stdout + r.stderr).splitlines() if "error" in l][:8]
-            if ginfo is not None and any(any(f"{k}{a.pid}" in l for k in ("Guards", "Wiring", "Scatter", "Np")) for l in bad):
+            if ginfo is not None and any(any(f"{k}{a.pid}" in l for k in ("Guards", "Wiring", "Scatter", "Np", "Imp")) for l in bad):
                 sys.exit(obligation_broken(a.pid, "obligation-broken: " + " | ".join(bad)[:900], mod, a.tier, seed, a.replay, ginfo))
             print("machinery error: lake build failed\n" + "\n".join(bad[:6]), file=sys.stderr); sys.exit(2)
     try:
